@@ -95,10 +95,10 @@ func typeShape(t reflect.Type, d int) string {
 }
 
 type c03case struct {
-	Depth int  `json:"depth"`
-	TI    int  `json:"type_index"`
-	VI    int  `json:"value_index"`
-	Addr  bool `json:"addr"`
+	Depth int    `json:"depth"`
+	TI    int    `json:"type_index"`
+	VI    int    `json:"value_index"`
+	Addr  bool   `json:"addr"`
 	Type  string `json:"type"`
 }
 
